@@ -37,7 +37,11 @@ def generate_nodes_and_edges(
                     "label": label,
                 }
             )
-        elif isinstance(arg, list) and all([isinstance(a, Future) for a in arg]):
+        elif (
+            isinstance(arg, list)
+            and len(arg) > 0
+            and all([isinstance(a, Future) for a in arg])
+        ):
             for a in arg:
                 add_element(arg=a, link_to=link_to, label=label)
         else:
